@@ -401,6 +401,8 @@ def r11cd(repo, chk):
                             if isinstance(v, ast.Name) and is_fresh_or_percompile_name(v, rd, d.node):
                                 continue
                             bad.append(norm(v)[:40])
+                        elif d.kind == "for" and d.value is not None and _elements_fresh(d.value, d.index, rd, d.node):
+                            continue      # an element of a container that this function built itself out of fresh values
                         elif d.kind in ("for", "with", "except"):
                             bad.append(d.kind + " variable")
                     key = f"{mn}:{q}:{recv.id}{what if what.startswith('.') else ' ' + what}"
@@ -412,6 +414,44 @@ def r11cd(repo, chk):
                     else:
                         chk.bad("R11.d", key, f"in-place mutation of {recv.id}, which may be an object owned by the caller or a compile-time constant "
                                               f"shared through the constexpr cache ({sorted(set(bad))})", None, where)
+
+
+def _elements_fresh(it, index, rd, nid, depth=0):
+    """for k, v in D.items() / for v in D.values() / for v in L  where D / L is a local that this function builds from fresh values
+    (dict / set / list displays and comprehensions, set(), dict(), .copy()): v is a fresh object, mutating it touches nothing shared."""
+    if depth > 3:
+        return False
+    base, which = it, "elem"
+    if isinstance(it, ast.Call) and isinstance(it.func, ast.Attribute) and it.func.attr in ("items", "values") and not it.args:
+        base, which = it.func.value, it.func.attr
+        if which == "items" and index != (1,):
+            return False
+    if not isinstance(base, ast.Name):
+        return False
+    ds = rd.at(nid, base.id)
+    if not ds:
+        return False
+
+    def fresh_value(v):
+        return isinstance(v, (ast.Set, ast.List, ast.Dict, ast.SetComp, ast.ListComp, ast.DictComp)) or \
+            isinstance(v, ast.Call) and (norm(v.func) in ("set", "list", "dict") or isinstance(v.func, ast.Attribute) and v.func.attr == "copy") or \
+            isinstance(v, ast.IfExp) and fresh_value(v.body) and fresh_value(v.orelse)
+    for d in ds:
+        if d.kind != "assign" or d.index or d.value is None:
+            return False
+        v = d.value
+        if isinstance(v, ast.DictComp):
+            if not fresh_value(v.value):
+                return False
+        elif isinstance(v, ast.Dict):
+            if not all(fresh_value(x) for x in v.values):
+                return False
+        elif isinstance(v, (ast.ListComp, ast.SetComp)):
+            if not fresh_value(v.elt):
+                return False
+        else:
+            return False
+    return True
 
 
 def is_fresh_or_percompile_name(nm, rd, nid):
